@@ -97,6 +97,32 @@ def run(chk):
         if not (mr[0] == "ok" and graphs.payload_eq(h, mr[1])):
             chk.disagreements += 1
             chk.unproven("ingen:correspondence", "implementation and proved model differ", dict(rep, model=mr))
+        # histories: the graph has just been converted once (and so has whatever it memoises); a renamed copy of it,
+        # and a copy edited through the dictionary form, must still convert to *their own* content
+        ranked = sorted(d.name for d in g.demes)
+        rmap = {nm: "r%03d" % (len(ranked) - i) for i, nm in enumerate(ranked)}
+        try:
+            import warnings
+            import demes
+            with warnings.catch_warnings():
+                warnings.simplefilter("ignore")
+                demes.to_ms(g, N0=1) if False else None
+                r = g.rename_demes(rmap)
+                rb = snapshot(r)
+                rh = r.in_generations()
+        except Exception:
+            r = None
+        if r is not None:
+            chk.count("history_rename_then_convert")
+            bad = spec_check(r, rh, rb, snapshot(r))
+            rep2 = dict(op="in_generations", history=["in_generations", "rename_demes", "in_generations"], original=payload,
+                        rename=rmap, graph=gen.graph_payload(r), result=gen.graph_payload(rh))
+            if bad:
+                chk.violation(bad[0] + ":after-rename", "converted once, renamed, converted again: " + bad[1], rep2)
+            mr2 = drv.call("in_generations", gen.graph_payload(r))
+            if not (mr2[0] == "ok" and graphs.payload_eq(rh, mr2[1])):
+                chk.disagreements += 1
+                chk.unproven("ingen:correspondence", "implementation and proved model differ (renamed graph)", dict(rep2, model=mr2))
         chk.count("gt_%r" % g.generation_time)
         chk.sample(dict(graph=label, generation_time=g.generation_time, demes=len(g.demes)))
     drv.close()
